@@ -475,6 +475,9 @@ func parseOp(op string) (p parsed, err error) {
 			})
 			return r
 		}}, nil
+	case name == "csvopt" && dir == "rt" && len(ws) == 4:
+		return parsed{expr: `. as [$c,$x] | ` + rtExpr(`$x | to_csv({comma: $c})`, `from_csv({comma: $c}) | tovalue`),
+			input: []any{string(hlib.UnHex(ws[2])), parseWire(ws[3])}, render: jsonRtObs}, nil
 	case name == "csvdelim" && dir == "rt" && len(ws) == 3:
 		return parsed{expr: `. as $c | ` + rtExpr(`[["a","b"]] | to_csv({comma: $c})`, `from_csv({comma: $c}) | tovalue`),
 			input: string(hlib.UnHex(ws[2])), render: jsonRtObs}, nil
